@@ -123,3 +123,31 @@ def scalerOp [Inhabited α] (A : Arith α) (offset scale : List α) (x : Tensor 
       | .ok (x3, s) => zipSame A.mul x3 s
 
 end Gonnx
+
+namespace Gonnx
+
+/-- `incrementSlices`, literally: walk the digits from the last to the first; a digit at its maximum
+is reset to 0 (at position 0: stop, nothing left), otherwise it is incremented and the walk ends.
+`none` = "increment did not succeed" (the loop of `batchedMatMul` breaks). -/
+def incrementSlices (shape : List Nat) (cur : List Nat) : Option (List Nat) :=
+  let rec go (i : Nat) (fuel : Nat) (cur : List Nat) : Option (List Nat) :=
+    match fuel with
+    | 0 => none
+    | f+1 =>
+      let start := cur.getD i 0
+      if dim shape i = start + 1 then
+        if i = 0 then none else go (i - 1) f (cur.set i 0)
+      else some (cur.set i (start + 1))
+  if shape.length = 0 then none else go (shape.length - 1) shape.length cur
+
+/-- the batch indices the loop of `batchedMatMul` visits, in order, starting from all zeros -/
+def odometer (shape : List Nat) : List (List Nat) :=
+  let rec run (fuel : Nat) (cur : List Nat) : List (List Nat) :=
+    match fuel with
+    | 0 => []
+    | f+1 => cur :: (match incrementSlices shape cur with
+      | none => []
+      | some nxt => run f nxt)
+  run (prod shape + 1) (List.replicate shape.length 0)
+
+end Gonnx
